@@ -103,8 +103,8 @@ func driveOps(c *Ctx) error {
 		rr := collect(reps, func(i int) []cty.Value { return concretizeArgs(aj, i) })
 		ev := J{"ev": "call", "api": api, "x": x, "a": projectArgs(a0), "r": run(api, a0, x), "rs": rs, "rr": rr}
 		if len(api) > 3 && api[:3] == "fn:" {
+			ev["fn"] = api[3:]
 			if f, ok := lookupFunc(api[3:], x); ok {
-				ev["fn"] = api[3:]
 				tys := make([]cty.Type, len(a0))
 				for i, v := range a0 {
 					tys[i] = v.Type()
